@@ -440,21 +440,50 @@ pub fn snapshot(sim: &Sim) -> String {
                 if p.select_state.is_some() { 1 } else { 0 }
             ));
         }
+        // await bookkeeping of the worker (hooks verif_awaited / verif_awaiters_for_target)
+        let awaited = sim.workers[i].verif_awaited();
+        let af: Vec<String> = sim.workers[i]
+            .verif_awaiters_for_target()
+            .iter()
+            .filter(|(_, a)| !a.is_empty())
+            .map(|(t, a)| format!("{t}:{}", show_nats(a)))
+            .collect();
         ws.push(format!(
-            "W{i} q={} sp={} se={} C=[{}] E=[{}] {}",
+            "W{i} q={} sp={} se={} AW={} AF=[{}] C=[{}] E=[{}] {}",
             show_nats(&queue),
             show_nats(&spawning),
             show_nats(&selecting),
+            show_nats(&awaited),
+            af.join(" "),
             cmds.join(" "),
             evts.join(" "),
             procs.join(" ")
         ));
     }
+    // environment side (hooks verif_router / verif_pending_awaits)
+    let router: Vec<String> = sim.env.verif_router().iter().map(|(p, w)| format!("{p}>{w}")).collect();
+    let pending: Vec<String> = sim
+        .env
+        .verif_pending_awaits()
+        .iter()
+        .map(|(a, expected, responses)| {
+            let resp: Vec<String> = responses
+                .iter()
+                .map(|(w, rs)| format!("{w}:[{}]", rs.iter().map(|(t, st)| format!("{t}={st}")).collect::<Vec<_>>().join(";")))
+                .collect();
+            format!("{a}:e{}:r[{}]", show_nats(expected), resp.join(" "))
+        })
+        .collect();
+    for (p, _) in sim.env.verif_router() {
+        next = next.max(p + 1);
+    }
     format!(
-        "now={} fault={} next={} | {}",
+        "now={} fault={} next={} R=[{}] PA=[{}] | {}",
         sim.time_ms,
         if sim.faults.is_empty() { 0 } else { 1 },
         next,
+        router.join(" "),
+        pending.join(" "),
         ws.join(" | ")
     )
 }
